@@ -213,6 +213,9 @@ func liveScenarios(grace time.Duration, hammer int) []*liveResult {
 				}(g)
 			}
 			atomic.StoreInt32(&start, 1)
+			if j := it % 12; j > 0 { // vary where Close falls relative to the sends
+				time.Sleep(time.Duration(j*j*3) * time.Microsecond)
+			}
 			q.Close()
 			wg.Wait()
 			for g := 0; g < G && res.Blocked == ""; g++ {
